@@ -115,6 +115,29 @@ def fn_for_line(u: extract.Unit, text_lines: List[str], line: int) -> str:
 
 def run_unit(name: str, repo: str = '/repo', extra_args: List[str] = None, text_override: str = None,
              tag: str = '', timeout: int = 600, rlimit: Optional[int] = None) -> UnitResult:
+    r = _run_unit(name, repo, extra_args, text_override, tag, timeout, rlimit)
+    # `await-try` clauses mention a place (e.g. the peer table) that may be mutably borrowed at that suspension point
+    # in the current code: rustc then rejects the ghost read.  Such a clause is optional by declaration: retry without.
+    if r.undecided and r.other_errors and all(re.search(r'cannot borrow .* as immutable because it is also borrowed as mutable', e) for e in r.other_errors):
+        lines_ok = True
+        for e in r.other_errors:
+            m = re.search(r'@(\d+)$', e)
+            o = r.linemap[int(m.group(1)) - 1] if (m and r.linemap and 0 < int(m.group(1)) <= len(r.linemap)) else None
+            if not (o and o[0] == 'ins' and str(o[1]).startswith('awaittry')):
+                lines_ok = False
+        if lines_ok:
+            extract._tls.no_await_try = True      # thread-local: other units being built in parallel are unaffected
+            try:
+                r2 = _run_unit(name, repo, extra_args, text_override, tag, timeout, rlimit)
+            finally:
+                extract._tls.no_await_try = False
+            r2.other_errors = r2.other_errors or []
+            return r2
+    return r
+
+
+def _run_unit(name: str, repo: str = '/repo', extra_args: List[str] = None, text_override: str = None,
+              tag: str = '', timeout: int = 600, rlimit: Optional[int] = None) -> UnitResult:
     res = UnitResult(unit=name)
     t0 = time.time()
     try:
